@@ -70,6 +70,35 @@ RecsFrom(s, segs, i, maxSize, limit, L1, L2, R) ==
 Records(s, maxSize, limit, L1, L2, R) == RecsFrom(s, Segments(s), 1, maxSize, limit, L1, L2, R)
 
 (***************************************************************************)
+(* The same for an arbitrary judge of the family                           *)
+(*   J = [maxSize, limit, skipAt, stopAt]:                                 *)
+(*   Stop        when the current range starts at or after `limit` or at   *)
+(*               an offset in stopAt (the judge is also consulted, with an *)
+(*               empty range, at every delimiter met while looking for the *)
+(*               next record);                                             *)
+(*   SkipRecord  when the decoded size exceeds maxSize or a non-empty      *)
+(*               range starts at an offset in skipAt;   KeepGoing else.    *)
+(* WalkJ follows the stream the way successive calls do: p is the offset   *)
+(* where the search for the next record (re)starts.                        *)
+(***************************************************************************)
+StdJudge(maxSize, limit) == [maxSize |-> maxSize, limit |-> limit, skipAt |-> {}, stopAt |-> {}]
+StopsAt(J, p) == (J.limit >= 0 /\ p >= J.limit) \/ p \in J.stopAt
+
+RECURSIVE WalkJ(_, _, _, _, _, _)
+WalkJ(s, p, J, L1, L2, R) ==
+  IF p >= Len(s) THEN << >>
+  ELSE IF p + 2 <= Len(s) /\ s[p + 1] = FE /\ s[p + 2] = FD
+    THEN IF StopsAt(J, p + 2) THEN << >> ELSE WalkJ(s, p + 2, J, L1, L2, R)         \* a delimiter, judged with an empty range
+  ELSE LET later == {q \in StuffPositions(s) : q - 1 >= p}
+           b == IF later = {} THEN Len(s) ELSE Min(later) - 1                     \* end of this stuff-free segment
+           d == RefDecode(SubSeq(s, p + 1, b), L1, L2, R)
+           keep == d.ok /\ (J.maxSize < 0 \/ Len(d.out) <= J.maxSize) /\ p \notin J.skipAt
+           rest == IF b >= Len(s) THEN << >> ELSE WalkJ(s, b + 2, J, L1, L2, R)    \* the delimiter closing the record is not judged
+       IN IF StopsAt(J, p) THEN << >>
+          ELSE (IF keep THEN <<[data |-> d.out, a |-> p, b |-> b]>> ELSE << >>) \o rest
+RecordsJ(s, J, L1, L2, R) == WalkJ(s, 0, J, L1, L2, R)
+
+(***************************************************************************)
 (* I-spec: StreamChunker::pump.  Chunker state: [buf, off, pos] where pos  *)
 (* is how much of the stream the reader has delivered.  Given read_n's     *)
 (* contract (C17: it returns the carried prefix followed by the next bytes *)
@@ -115,19 +144,19 @@ PumpAll(c, s, block, BugF1, fuel) ==
        ELSE <<r.chunk>> \o PumpAll(r.st, s, block, BugF1, fuel - 1)
 
 (***************************************************************************)
-(* I-spec: StreamReader::next_record_bytes with the standard judge         *)
-(* chunk_judge(maxSize, limit).  Reader state: the chunker state.          *)
+(* I-spec: StreamReader::next_record_bytes with a judge J of the family     *)
+(* above (chunk_judge(maxSize, limit) = StdJudge(maxSize, limit)).  Reader state: the chunker state.          *)
 (* Result: [rec |-> [data, a, b] or NoRec, st |-> chunker state].          *)
 (***************************************************************************)
 NoRec == [data |-> << >>, a |-> -1, b |-> -1]
 
-JudgeStd(a, size, maxSize, limit) ==
-  IF limit >= 0 /\ a >= limit THEN "stop"
-  ELSE IF maxSize >= 0 /\ size > maxSize THEN "skip" ELSE "keep"
+JudgeJ(J, a, size, nonEmpty) ==
+  IF StopsAt(J, a) THEN "stop"
+  ELSE IF (J.maxSize >= 0 /\ size > J.maxSize) \/ (nonEmpty /\ a \in J.skipAt) THEN "skip" ELSE "keep"
 
 \* inner loop: mode in {"sentinel", "decode", "skip"}; dec: decoder I-state; [a, b): range
-RECURSIVE ReadLoop(_, _, _, _, _, _, _, _, _, _, _, _, _)
-ReadLoop(c, s, block, mode, dec, a, b, maxSize, limit, L1, L2, R, fuel) ==
+RECURSIVE ReadLoop(_, _, _, _, _, _, _, _, _, _, _, _)
+ReadLoop(c, s, block, mode, dec, a, b, J, L1, L2, R, fuel) ==
   IF fuel = 0 THEN [rec |-> NoRec, st |-> c, again |-> FALSE]
   ELSE
   LET r == Pump(c, s, block, FALSE)
@@ -135,10 +164,10 @@ ReadLoop(c, s, block, mode, dec, a, b, maxSize, limit, L1, L2, R, fuel) ==
   IN
   IF ch.k = "S" THEN
        IF mode = "sentinel"
-         THEN (IF JudgeStd(ch.off, Len(dec.out), maxSize, limit) = "stop"
+         THEN (IF JudgeJ(J, ch.off, Len(dec.out), FALSE) = "stop"
                  THEN [rec |-> NoRec, st |-> r.st, again |-> FALSE]
-               \* (the standard judge cannot answer "skip" here: nothing is decoded yet)
-               ELSE ReadLoop(r.st, s, block, mode, dec, ch.off, ch.off, maxSize, limit, L1, L2, R, fuel - 1))
+               \* (a judge of the family cannot answer "skip" here: nothing is decoded yet and the range is empty)
+               ELSE ReadLoop(r.st, s, block, mode, dec, ch.off, ch.off, J, L1, L2, R, fuel - 1))
        ELSE \* record complete
             IF mode = "decode" /\ DecFinishOk(dec)
               THEN [rec |-> [data |-> dec.out, a |-> a, b |-> b], st |-> r.st, again |-> FALSE]
@@ -154,24 +183,24 @@ ReadLoop(c, s, block, mode, dec, a, b, maxSize, limit, L1, L2, R, fuel) ==
            mode1 == IF mode = "sentinel" THEN "decode" ELSE mode
            dec1 == IF mode1 = "decode" THEN DecFeed(dec, ch.data, L1, L2, R) ELSE dec
            mode2 == IF mode1 = "decode" /\ dec1.err THEN "skip" ELSE mode1
-           j == JudgeStd(a1, Len(dec1.out), maxSize, limit)
+           j == JudgeJ(J, a1, Len(dec1.out), TRUE)
        IN IF j = "stop" THEN [rec |-> NoRec, st |-> r.st, again |-> FALSE]
           ELSE ReadLoop(r.st, s, block, IF j = "skip" THEN "skip" ELSE mode2, dec1, a1, ch.off,
-                        maxSize, limit, L1, L2, R, fuel - 1)
+                        J, L1, L2, R, fuel - 1)
 
 \* 'retry loop
-RECURSIVE NextRecord(_, _, _, _, _, _, _, _, _)
-NextRecord(c, s, block, maxSize, limit, L1, L2, R, fuel) ==
+RECURSIVE NextRecord(_, _, _, _, _, _, _, _)
+NextRecord(c, s, block, J, L1, L2, R, fuel) ==
   IF fuel = 0 THEN [rec |-> NoRec, st |-> c]
-  ELSE LET r == ReadLoop(c, s, block, "sentinel", DecNew, 0, 0, maxSize, limit, L1, L2, R, 4 * Len(s) + 8) IN
-       IF r.again THEN NextRecord(r.st, s, block, maxSize, limit, L1, L2, R, fuel - 1)
+  ELSE LET r == ReadLoop(c, s, block, "sentinel", DecNew, 0, 0, J, L1, L2, R, 4 * Len(s) + 8) IN
+       IF r.again THEN NextRecord(r.st, s, block, J, L1, L2, R, fuel - 1)
        ELSE [rec |-> r.rec, st |-> r.st]
 
 \* all records returned by successive calls up to the first None
-RECURSIVE AllRecords(_, _, _, _, _, _, _, _, _)
-AllRecords(c, s, block, maxSize, limit, L1, L2, R, fuel) ==
+RECURSIVE AllRecords(_, _, _, _, _, _, _, _)
+AllRecords(c, s, block, J, L1, L2, R, fuel) ==
   IF fuel = 0 THEN << >>
-  ELSE LET r == NextRecord(c, s, block, maxSize, limit, L1, L2, R, Len(s) + 4) IN
+  ELSE LET r == NextRecord(c, s, block, J, L1, L2, R, Len(s) + 4) IN
        IF r.rec = NoRec THEN << >>
-       ELSE <<r.rec>> \o AllRecords(r.st, s, block, maxSize, limit, L1, L2, R, fuel - 1)
+       ELSE <<r.rec>> \o AllRecords(r.st, s, block, J, L1, L2, R, fuel - 1)
 =============================================================================
